@@ -243,7 +243,10 @@ pub fn generate(seed: u64, g: &GenCtx) -> Scenario {
             } else if roll < 91 && f_migrate {
                 Op::Migrate
             } else if roll < 96 && f_drop {
-                if rng.chance(1, 2) {
+                if has_local && rng.chance(1, 2) {
+                    has_local = false;
+                    Op::CloneDropWalk
+                } else if rng.chance(1, 2) {
                     has_local = false;
                     Op::DropLocal
                 } else {
@@ -402,6 +405,9 @@ fn op_to_json(op: &Op) -> Json {
         Op::DropLocal => {
             o.set("op", Json::s("drop-local"));
         }
+        Op::CloneDropWalk => {
+            o.set("op", Json::s("clone-drop-walk"));
+        }
         Op::DropShared { slot } => {
             o.set("op", Json::s("drop-shared"));
             o.set("slot", Json::u(u64::from(*slot)));
@@ -502,6 +508,7 @@ pub fn scenario_from_json(j: &Json) -> Result<Scenario, String> {
                 "read-shared" => Op::ReadShared { slot },
                 "migrate" => Op::Migrate,
                 "drop-local" => Op::DropLocal,
+                "clone-drop-walk" => Op::CloneDropWalk,
                 "drop-shared" => Op::DropShared { slot },
                 x => return Err(format!("unknown op {x}")),
             };
